@@ -82,12 +82,23 @@ def ob_cache_step(v: int, perr: bool, pvol: bool, pcaching: bool, pvar: int, pre
     pre: -99 <= v <= 99 and -9 <= pvar <= 9 and 0 <= pre <= 3
     post: _
     """
+    ci = part("config")
+    pre = pick(pre, 4)
+    if ci in SERIALISING:
+        # serialising caches (pickle / json / ShimFS) cannot carry symbolic proxies and cost 3-6 s per traced path: every value of the
+        # step is made concrete by solver decisions (data and variable from pools, each flag a decision) and the step runs untraced
+        v = POOL[pick(v % 5, 5)]
+        pvar = [-9, 0, 9][pick(pvar % 3, 3)]
+        perr, pvol, pcaching = bool(perr), bool(pvol), bool(pcaching)
+        with nt():
+            return _cache_step(v, perr, pvol, pcaching, pvar, pre)
+    return _cache_step(v, perr, pvol, pcaching, pvar, pre)
+
+
+def _cache_step(v, perr, pvol, pcaching, pvar, pre):
     qi, ci, clause = part("q"), part("config"), part("clause")
     q, ptext, use_extra = FAMILY[qi]
     extras = [5] if use_extra else None
-    if ci in SERIALISING:
-        v = POOL[pick(v % 5, 5)]      # pickle cannot serialise a symbolic proxy: data from a pool, flags stay symbolic
-    pre = pick(pre, 4)
     from liquer.parser import parse
     canonical = parse(q).encode()
     with quiet():
@@ -195,6 +206,16 @@ def ob_input_step(v: int, pre: int, with_prefix: bool) -> bool:
     """
     ci, clause = part("config"), part("clause")
     pre = pick(pre, 4)
+    if ci in SERIALISING:
+        v = POOL[pick(v % 5, 5)]
+        with_prefix = bool(with_prefix)
+        with nt():
+            return _input_step(v, pre, with_prefix)
+    return _input_step(v, pre, with_prefix)
+
+
+def _input_step(v, pre, with_prefix):
+    ci, clause = part("config"), part("clause")
     # Q evaluated with an injected input value (explicit cache object): "addn-5" (empty predecessor) or "addn-5/addn-2"
     q = "addn-5/addn-2" if with_prefix else "addn-5"
     def mksubs():      # fresh objects per evaluation: a volatile predecessor is (by design) not cloned by evaluate_action
@@ -254,7 +275,8 @@ COMMON_ASSUMPTIONS = [
     "(opaque Box(int -99..99)), is_error / volatile / caching flags, one state variable (-9..9), cache pre-state kind for Q",
     "cache invariant assumed for the pre-state: a ready entry for Q equals what the cache-less step returns (and exists only if that is "
     "admissible); anything else is absent, progress-metadata-only or stale error metadata",
-    "in-process caches only; serialising caches (StoreCache on MemoryStore, FileCache on ShimFS) in the thorough tier with data from a pool "
-    "of 5 ints (pickle cannot serialise a symbolic proxy); SQL/XOR/Fernet caches outside the claim",
+    "serialising caches (StoreCache on MemoryStore, FileCache on ShimFS; thorough tier): data and variable from pools, every flag a solver "
+    "decision, the step itself untraced (pickle/json cannot carry symbolic proxies); SQL/XOR/Fernet caches are covered as key-value maps "
+    "under C13 but not by these step lemmas",
     "logging/print output discarded; Vars.__getattr__ raises AttributeError instead of KeyError for dunder names (engine accommodation)",
 ]
